@@ -393,6 +393,14 @@ class Module:
             self.classes[n.name] = {"node": n, "bases": [b for b in n.bases], "methods": methods}
         elif isinstance(n, ast.Assign) and len(n.targets) == 1 and isinstance(n.targets[0], ast.Name):
             self.globals[n.targets[0].id] = n.value
+        elif isinstance(n, ast.Assign) and len(n.targets) == 1 and isinstance(n.targets[0], (ast.Tuple, ast.List)) and isinstance(n.value, (ast.Tuple, ast.List)) and \
+                len(n.targets[0].elts) == len(n.value.elts) and all(isinstance(t_, ast.Name) for t_ in n.targets[0].elts) and not any(isinstance(v_, ast.Starred) for v_ in n.value.elts):
+            # `_COMPELLED, _REVERSIBLE, _UNKNOWN = 1, -1, -2`: one simple assignment per name
+            for t_, v_ in zip(n.targets[0].elts, n.value.elts):
+                self.globals[t_.id] = v_
+        elif isinstance(n, ast.Assign) and len(n.targets) > 1 and all(isinstance(t_, ast.Name) for t_ in n.targets):
+            for t_ in n.targets:             # a = b = 0
+                self.globals[t_.id] = n.value
         elif isinstance(n, ast.Try):
             # `try: from .semi import DRFNet` / `try: importr(...)` at module level
             for s in n.body + [x for h in n.handlers for x in h.body]:
